@@ -61,7 +61,11 @@ func gen(r *sim.Rng, tier string) *sim.Case {
 		case 3:
 			c.Ops = append(c.Ops, sim.Op{Op: "Len"})
 		case 4:
-			c.Ops = append(c.Ops, sim.Op{Op: "Enum", S: []string{"Iter", "Range", "All"}[r.N(3)], D: enumStop(r)})
+			e := sim.Op{Op: "Enum", S: []string{"Iter", "Range", "All"}[r.N(3)], D: enumStop(r)}
+			if e.D != 0 && r.Pct(12) {
+				e.V = 1 // the D-th callback panics instead of stopping
+			}
+			c.Ops = append(c.Ops, e)
 		}
 		if heavy && r.Pct(12) {
 			cnt := []int{4095, 4096, 4097, 4098, 5000, 300}[r.N(6)]
@@ -490,6 +494,21 @@ func siteOf(op sim.Op) string {
 	return op.Op
 }
 
+type cbPanic struct{}
+
+// guard runs an enumeration whose callback may panic the way a caller that recovers would:
+// afterwards the bitmap must be as usable as after an early stop.
+func guard(f func()) {
+	defer func() {
+		if r := recover(); r != nil {
+			if _, mine := r.(cbPanic); !mine {
+				panic(r)
+			}
+		}
+	}()
+	f()
+}
+
 func enum(rb *setz.RoaringBitmap, md map[uint32]struct{}, op sim.Op, idx int, probes map[string]int) *sim.Violation {
 	want := make([]uint32, 0, len(md))
 	buckets := map[uint32]bool{}
@@ -513,19 +532,29 @@ func enum(rb *setz.RoaringBitmap, md map[uint32]struct{}, op sim.Op, idx int, pr
 			}
 		}
 	case "Range":
-		rb.Range(func(x uint32) bool {
-			got = append(got, x)
-			return !((op.D != 0 && len(got) >= op.D) || len(got) > limit)
+		guard(func() {
+			rb.Range(func(x uint32) bool {
+				got = append(got, x)
+				if op.V == 1 && op.D != 0 && len(got) >= op.D {
+					panic(cbPanic{}) // the callback fails; the caller of the enumeration recovers
+				}
+				return !((op.D != 0 && len(got) >= op.D) || len(got) > limit)
+			})
 		})
 	case "All":
 		// obtained once, ranged twice (the second time completely)
 		seq := rb.All()
-		for x := range seq {
-			got = append(got, x)
-			if (op.D != 0 && len(got) >= op.D) || len(got) > limit {
-				break
+		guard(func() {
+			for x := range seq {
+				got = append(got, x)
+				if op.V == 1 && op.D != 0 && len(got) >= op.D {
+					panic(cbPanic{})
+				}
+				if (op.D != 0 && len(got) >= op.D) || len(got) > limit {
+					break
+				}
 			}
-		}
+		})
 		n2, ok2 := 0, true
 		for x := range seq {
 			if n2 >= len(md) || n2 > limit {
